@@ -20,16 +20,23 @@ SOURCES = {  # name -> (kind, expression)
     "global_obj": ("obj", "global_obj"),
     "ref_vec": ("vec", "ref_vec"), "global_vec_size": ("vec", "global_vec"),
     "ref_map": ("map", "ref_map"),
+    "host_fn": ("fn", "host_fn"), "script_fn": ("fn", "script_fn"), "const_var_fn": ("fn", "const_var_fn"),
 }
 
 MUTATORS = {  # kind -> [(template with {x}, own_type?)]
     "int": [("{x} = 1", True), ("{x} += 1", True), ("{x} -= 1", True), ("{x} *= 2", True), ("{x} /= 2", True), ("{x} %= 5", True), ("{x} <<= 1", True),
             ("{x} >>= 1", True), ("{x} |= 1", True), ("{x} &= 1", True), ("{x} ^= 1", True), ("++{x}", True), ("--{x}", True), ("mut_int_ref({x})", True),
-            ("mut_int_ptr({x})", True), ("mut_int_shared({x})", False), ("mut_int_refwrap({x})", False), ("mut_dbl_ref({x})", False), ("{x} = 1.5", True)],
+            ("mut_int_ptr({x})", True), ("mut_int_shared({x})", False), ("mut_int_refwrap({x})", False), ("mut_dbl_ref({x})", False), ("{x} = 1.5", True),
+            # the same operators reached as functions (no Equation / Prefix node in between)
+            ("`+=`({x}, 1)", True), ("{x}.`+=`(1)", True), ("bind(`+=`, {x}, _)(1)", True), ("`++`({x})", True), ("`--`({x})", True), ("`=`({x}, 1)", True),
+            ("`*=`({x}, 2)", True), ("`-=`({x}, 1)", True), ("{x}.`=`(3)", True), ("bind(`=`, {x}, _)(4)", True), ("`|=`({x}, 1)", True)],
     "dbl": [("{x} = 1.0", True), ("{x} += 1", True), ("{x} *= 2", True), ("++{x}", True), ("--{x}", True), ("mut_dbl_ref({x})", True), ("mut_int_ref({x})", False),
-            ("{x} /= 2", True), ("{x} -= 0.5", True)],
+            ("{x} /= 2", True), ("{x} -= 0.5", True), ("`+=`({x}, 1.0)", True), ("{x}.`*=`(2.0)", True), ("`=`({x}, 1.0)", True), ("`++`({x})", True)],
     "str": [('{x} = "a"', True), ('{x} += "a"', True), ("{x} += 'c'", True), ("{x}.push_back('c')", True), ("{x}.clear()", True), ("{x}[0] = 'z'", True),
-            ("{x}.insert_at(0, 'a')", True), ("{x}.erase_at(0)", True), ("mut_str_ref({x})", True), ("mut_str_ptr({x})", True), ("mut_str_shared({x})", True)],
+            ("{x}.insert_at(0, 'a')", True), ("{x}.erase_at(0)", True), ("mut_str_ref({x})", True), ("mut_str_ptr({x})", True), ("mut_str_shared({x})", True),
+            ('`+=`({x}, "a")', True), ('{x}.`+=`("a")', True), ('`=`({x}, "q")', True), ('bind(`=`, {x}, _)("zz")', True), ('{x}.`=`("y")', True)],
+    "fn": [("{x} = fun() {{ 0 }}", True), ("`=`({x}, fun() {{ 0 }})", True), ("{x}.`=`(fun() {{ 0 }})", True), ("bind(`=`, {x}, _)(fun() {{ 0 }})", True),
+           ("{x} := fun() {{ 0 }}", True), ("`=`({x}, script_fn)", True), ("`=`({x}, host_fn)", True)],
     "obj": [("{x}.set(5)", True), ("{x}.v = 5", True), ('{x}.rename("n")', True), ('{x}.s = "n"', True), ('{x}.s += "n"', True), ("{x} = Obj()", True),
             ("mut_obj_ref({x})", True), ("mut_obj_ptr({x})", True), ("mut_obj_shared({x})", True), ("++{x}.v", True), ("{x}.s.clear()", True),
             ("mut_int_ref({x}.v)", True), ("mut_str_ref({x}.s)", True)],
@@ -97,7 +104,7 @@ def build(rng, idx):
 
 LITERALS = [("5", "int", "int:5"), ('"lit"', "str", "string:lit"), ("2.5", "dbl", "double:2.5"), ("[1, 2]", "vec", "[int:1, int:2]"), ("true", "bool", "bool:true"),
             ("'c'", "chr", "char:99"), ("-3", "int", "int:-3"), ("(1 + 2)", "int", "int:3"), ('("a" + "b")', "str", "string:ab"), ("!false", "bool", "bool:true")]
-LIT_MUT = {"int": MUTATORS["int"][:13], "dbl": MUTATORS["dbl"][:5], "str": MUTATORS["str"][:8], "vec": MUTATORS["vec"][:7],
+LIT_MUT = {"int": MUTATORS["int"][:13] + [mm for mm in MUTATORS["int"] if "`" in mm[0]], "dbl": MUTATORS["dbl"][:5], "str": MUTATORS["str"][:8], "vec": MUTATORS["vec"][:7],
            "bool": [("{x} = false", True)], "chr": [("{x} = 'd'", True), ("++{x}", True)]}
 
 
@@ -153,9 +160,9 @@ def run(ctx, tier, seed, scale=1.0):
     if not ctx.samples:
         ctx.sample(plans[0])
     ctx.min_events["attempt-outcome:refused"] = 500
-    ctx.rule = ("one case = const source (19 sources: C++ const&, const*, shared_ptr<const>, const return values, add_global_const / const_var values; "
+    ctx.rule = ("one case = const source (22 sources: C++ const&, const*, shared_ptr<const>, const return values, add_global_const / const_var values, registered C++ / script / const_var function objects; "
                 "plus 10 literal spellings) x alias chain of 0-4 steps (var &, :=, parameter, parameter + reference, capture, bind, return; copy, vector "
-                "element) x one mutator of the source's type; distinct by script text; all non-trivial")
+                "element) x one mutator of the source's type (operators in infix/prefix form and reached as functions: `+=`(x, 1), x.`+=`(1), bind(`=`, x, _)(v)); distinct by script text; all non-trivial")
     ctx.assumptions += ["an arithmetic const value handed to a shared_ptr<int> / reference_wrapper<int> parameter reaches it through a converted temporary "
                         "(observed, nowhere specified): only conservation is judged for these two parameter forms",
                         "elements of a const Vector/Map are separate objects with their own constness (as with const vector<shared_ptr<T>>): writing an element "
@@ -164,6 +171,8 @@ def run(ctx, tier, seed, scale=1.0):
 
 
 def _mclass(m):
+    if "`" in m:
+        return "function-form:" + m.split("`")[1]
     if "mut_" in m:
         return m.split("(")[0]
     if "{x}." in m:
